@@ -800,6 +800,17 @@ let () =
               | Some (k, m) -> fail step "C05" k m
               | None -> ())
            | _ -> ()));
+        (* TDD (package TDDx): a snapshot, one client call, a snapshot: replay of the TDD manager state machine
+           (coq/Mgr/TddHist.v, ocaml/tddh.ml); reported under the first of C01 / C03 / C05 / C06 / C11 the check asks for *)
+        if kname = "tdd" && ps.nnodes <= 2000 then (
+          match !tm_ops, !prev_ps with
+          | [ (toks, r) ], Some pp ->
+            let prop = (try List.find (fun p -> List.mem p !props) [ "C01"; "C03"; "C05"; "C06"; "C11" ] with Not_found -> "C03") in
+            (match Tddh.check ~pp ~ps toks r with
+             | `Skip -> ()
+             | `Ok -> check prop; stat "tddh_replayed" 1; if toks = [ "GC" ] then stat "tddh_gc_replayed" 1
+             | `Bad (kind, m) -> check prop; fail step prop kind m)
+          | _ -> ());
         tm_ops := [];
         since := []; prev_ps := Some ps;
         resolve_pending step ps
